@@ -47,6 +47,7 @@ NewDevs(e) ==
   (IF e.a = "recv" /\ LateBeyondWindow(cfg, Get(e.s), e.w) THEN {"C03.LateBeyondWindow"} ELSE {})
   \cup (IF e.a = "missing" /\ FullSpan(cfg, Get(e.s)) THEN {"C03.FullSpan32768"} ELSE {})
   \cup (IF e.a = "tick" /\ \E s \in DOMAIN st : FullSpan(cfg, st[s]) THEN {"C03.FullSpan32768"} ELSE {})
+  \cup (IF e.a = "tick" /\ \E s \in DOMAIN st : CountAlias(cfg, st[s]) THEN {"C03.CountAliasAcrossCycle"} ELSE {})
 
 Next ==
   /\ l <= Len(Trace)
